@@ -289,19 +289,31 @@ Print Assumptions C14_reachable_trace_wf.
 
 (** ** 4. realloc *)
 
-(** CoreDefs.v has no reallocation.  The printer's buffer growth ([ensure], PrintDefs.v) takes the
-    reallocate branch only when the flag [pb_realloc] (= [hooks.reallocate != NULL] =
-    [hooks_realloc_available]) is set: with the flag off it is [ensure_manual] (allocate, copy,
-    deallocate — its text does not mention [reallocate]); [ensure] never changes the flag; and the
-    flag is off as soon as one hook is custom.  (That the flag stays off through a whole
-    [print_value] call, and the final trim in [print], are not restated here.) *)
-Theorem C14_no_realloc : forall oracle junk,
+(** CoreDefs.v has no reallocation.  The only reallocating code of the library is in the printer
+    (PrintDefs.v): the buffer growth in [ensure] and the final trim in [print], both guarded by
+    [hooks.reallocate != NULL] — the flag [pb_realloc] of the print buffer / the argument
+    [have_realloc], which is [hooks_realloc_available] of the configuration.
+    (a) with the flag off, [ensure] is [ensure_manual] (allocate, copy, deallocate; its text does
+        not mention [reallocate]);
+    (b) [ensure] never changes the flag, and neither does a whole [print_value] call (all node
+        types, any tree), so with the flag off every [ensure] inside it is [ensure_manual];
+    (c) [print] with [have_realloc = false] is [print_manual] (starts with the flag off, trims
+        by allocate + memcpy + deallocate; no [reallocate] in its text);
+    (d) the flag is off as soon as one hook is custom. *)
+Theorem C14_no_realloc : forall fmt_d fmt_g15 fmt_g17 sscanf_lg oracle junk,
   (forall p needed, pb_realloc p = false -> ensure oracle junk p needed = ensure_manual oracle junk p needed) /\
   (forall p needed b p', ensure oracle junk p needed = Ok (b, p') -> pb_realloc p' = pb_realloc p) /\
+  (forall n p b p', print_value fmt_d fmt_g15 fmt_g17 sscanf_lg oracle junk n p = Ok (b, p') ->
+     pb_realloc p' = pb_realloc p) /\
+  (forall item format, print fmt_d fmt_g15 fmt_g17 sscanf_lg oracle junk item format false =
+                       print_manual fmt_d fmt_g15 fmt_g17 sscanf_lg oracle junk item format) /\
   (forall hk, hk_malloc_custom hk = true \/ hk_free_custom hk = true -> hooks_realloc_available hk = false).
 Proof.
-  exact (fun oracle junk => conj (ensure_no_realloc oracle junk)
-           (conj (ensure_keeps_flag oracle junk) realloc_unavailable)).
+  exact (fun fmt_d fmt_g15 fmt_g17 sscanf_lg oracle junk =>
+           conj (ensure_no_realloc oracle junk)
+          (conj (ensure_keeps_flag oracle junk)
+          (conj (print_value_keeps_flag fmt_d fmt_g15 fmt_g17 sscanf_lg oracle junk)
+          (conj (print_no_realloc fmt_d fmt_g15 fmt_g17 sscanf_lg oracle junk) realloc_unavailable)))).
 Qed.
 Print Assumptions C14_no_realloc.
 
